@@ -10,6 +10,7 @@ import (
 
 	"github.com/Jigsaw-Code/outline-ss-server/ipinfo"
 	"github.com/Jigsaw-Code/outline-ss-server/service/metrics"
+	"github.com/Jigsaw-Code/outline-ss-server/verifrt/simnet"
 	"github.com/Jigsaw-Code/outline-ss-server/verifrt/simrt"
 	"github.com/prometheus/client_golang/prometheus"
 	dto "github.com/prometheus/client_model/go"
@@ -305,4 +306,173 @@ func describeIvs(ivs []*c17iv, key string) string {
 		}
 	}
 	return strings.Join(b, " ")
+}
+
+// c17s: tunnel time through the real service path. Connections and
+// associations are real; the intervals come from the instants at which the
+// service reported authentication/close (TCP) and association add/remove (UDP).
+func init() {
+	Register(&Scenario{Name: "c17s", Prop: "C17", MaxSteps: 300000, Tick: true, Run: runC17s})
+}
+
+func runC17s(rc *RunCtx) {
+	G := rc.G
+	w := simnet.NewWorld()
+	prom := newPromMetricsWith(rc, nil)
+	m := &RecMetrics{Inner: prom}
+	keys := genKeys(G, 1+G.Draw(3), "")
+	natT := []time.Duration{2 * time.Second, 20 * time.Second}[G.Draw(2)]
+	tsrv := startTCPServer(rc, w, tcpServerOpts{Keys: keys, Timeout: time.Second, Metrics: m})
+	usrv := startUDPServer(rc, w, udpServerOpts{Keys: keys, Timeout: natT, Metrics: m})
+	tgtIP := net.IPv4(93, 184, 216, 34).To4()
+	startTarget(w, tgtIP, 7000, func(tc *targetConn) {
+		readAll(tc.C)
+		tc.C.Close()
+	})
+	ips := []net.IP{net.IPv4(198, 18, 60, 1).To4(), net.IPv4(198, 18, 60, 2).To4(), net.ParseIP("2001:db8:60::3")}
+	nT := 1 + G.Draw(6)
+	unit := []time.Duration{100 * time.Millisecond, time.Second}[G.Draw(2)]
+	for t := 0; t < nT; t++ {
+		t := t
+		ip := ips[G.Draw(len(ips))]
+		key := keys[G.Draw(len(keys))]
+		udp := G.Draw(3) == 0
+		probe := !udp && G.Draw(6) == 0
+		d0 := time.Duration(G.Draw(8)) * unit
+		d1 := time.Duration(G.Draw(8)) * unit
+		rc.D("tunnel %d: %v key=%s udp=%v probe=%v start+%v dur=%v", t, ip, key.ID, udp, probe, d0, d1)
+		simrt.GoNamed(fmt.Sprintf("c17s-tunnel-%d", t), func() {
+			simrt.Sleep(d0)
+			if udp {
+				us, err := w.BindUDP(&net.UDPAddr{IP: ip, Port: 41000 + t})
+				if err != nil {
+					return
+				}
+				plain := append(socksAddr(fmt.Sprintf("%s:7001", tgtIP)), []byte("x")...)
+				n := 1 + int(d1/natT)
+				for k := 0; k < n; k++ {
+					us.WriteToUDP(packUDP(key, plain), &net.UDPAddr{IP: proxyIP, Port: 9000})
+					simrt.Sleep(natT / 2)
+				}
+				us.Close()
+				return
+			}
+			cc, err := tsrv.connect(ip, 42000+t)
+			if err != nil {
+				return
+			}
+			if probe {
+				cc.Write(payload(G, 70))
+			} else {
+				enc := newEncoder(key)
+				cc.Write(enc.Chunk(socksAddr(fmt.Sprintf("%s:7000", tgtIP))))
+			}
+			simrt.Sleep(d1)
+			cc.CloseWrite()
+			readAll(cc)
+			cc.Close()
+		})
+	}
+	type scrape struct {
+		q0, q1 int
+		t0, t1 time.Duration
+		vals   map[string]map[string]float64
+	}
+	var scrapes []*scrape
+	failed := false
+	doScrape := func() {
+		sc := &scrape{t0: simrt.Elapsed(), q0: simrt.Steps()}
+		vals, p := collectFamilies(prom)
+		sc.t1, sc.q1 = simrt.Elapsed(), simrt.Steps()
+		if p != nil {
+			failed = true
+			rc.Failf("scrape-panicked", "a metrics scrape at %v panicked: %v", sc.t0, p)
+			return
+		}
+		sc.vals = vals
+		scrapes = append(scrapes, sc)
+	}
+	nS := 1 + G.Draw(4)
+	for s := 0; s < nS; s++ {
+		at := time.Duration(G.Draw(20)) * unit
+		simrt.GoNamed(fmt.Sprintf("c17s-scraper-%d", s), func() { simrt.Sleep(at); doScrape() })
+	}
+	simrt.Quiesce()
+	if failed {
+		return
+	}
+	doScrape()
+	if failed {
+		return
+	}
+	// intervals as the service reported them
+	var ivs []*c17iv
+	for _, r := range m.TCP {
+		a := r.first("auth")
+		if a == nil {
+			continue
+		}
+		host, _, _ := net.SplitHostPort(r.Server.RemoteAddr().String())
+		iv := &c17iv{ip: host, key: a.Key, s0: a.At, s1: a.At2, e0: -1, e1: -1}
+		if c := r.first("closed"); c != nil {
+			iv.e0, iv.e1 = c.At, c.At2
+		}
+		ivs = append(ivs, iv)
+	}
+	for _, r := range m.UDP {
+		host, _, _ := net.SplitHostPort(r.Client)
+		iv := &c17iv{ip: host, key: r.Key, s0: r.At, s1: r.At2, e0: -1, e1: -1}
+		if r.RemAt >= 0 {
+			iv.e0, iv.e1 = r.RemAt, r.RemAt2
+		}
+		ivs = append(ivs, iv)
+	}
+	rc.Nontrivial = len(ivs) > 0
+	const eps = 1e-6
+	ids := map[string]bool{}
+	for _, k := range keys {
+		ids[k.ID] = true
+	}
+	for _, sc := range scrapes {
+		perKey := sc.vals["tunnel_time_seconds"]
+		for id := range ids {
+			lo, hi := time.Duration(0), time.Duration(0)
+			hosts := map[string]bool{}
+			for _, v := range ivs {
+				hosts[v.ip] = true
+			}
+			for h := range hosts {
+				var ivLo, ivHi [][2]time.Duration
+				for _, v := range ivs {
+					if v.ip != h || v.key != id {
+						continue
+					}
+					endLo, endHi := v.e0, v.e1
+					if v.e0 < 0 {
+						endLo, endHi = sc.t1+time.Hour, sc.t1+time.Hour
+					}
+					ivLo = append(ivLo, [2]time.Duration{v.s1, endLo})
+					ivHi = append(ivHi, [2]time.Duration{v.s0, endHi})
+				}
+				lo += unionLen(ivLo, sc.t0)
+				hi += unionLen(ivHi, sc.t1)
+			}
+			got := perKey["access_key="+id]
+			if got < lo.Seconds()-eps || got > hi.Seconds()+eps {
+				kind := "too-much"
+				if got < lo.Seconds() {
+					kind = "too-little"
+				}
+				rc.Failf("service-tunnel-time-"+kind, "scrape at %v: tunnel_time_seconds{access_key=%s} = %.9f, the tunnels the service reported add up to between %.9f and %.9f (%s)", sc.t0, id, got, lo.Seconds(), hi.Seconds(), describeIvs(ivs, id))
+			}
+		}
+		for k := range perKey {
+			if !ids[strings.TrimPrefix(k, "access_key=")] {
+				rc.Failf("tunnel-time-unknown-key", "tunnel time reported for %q", k)
+			}
+		}
+	}
+	tsrv.Stop()
+	usrv.Stop()
+	simrt.Quiesce()
 }
